@@ -17,6 +17,74 @@ F1_ABS = "  function f1() result(r)\n    abstract interface\n      subroutine ai
 S2_PP = "  subroutine s2()\n    procedure(ai), pointer :: pp\n  end subroutine s2\n"
 
 
+EXT_CHAIN = """module shapes
+  implicit none
+  type :: a
+    integer :: ia
+  contains
+    procedure :: run => run_a
+  end type a
+  type, extends(b) :: c
+    integer :: ic
+  contains
+    generic :: go => run
+  end type c
+  type, extends(a) :: b
+    integer :: ib
+  end type b
+contains
+  subroutine run_a(self)
+    class(a) :: self
+  end subroutine run_a
+  subroutine run()
+  end subroutine run
+  subroutine user()
+    type(c) :: x
+    call x%run()
+  end subroutine user
+end module shapes
+"""
+NESTED_SUBMODULE = """module kernel
+  implicit none
+  type :: token_t
+    integer :: k
+  end type token_t
+  interface
+    module subroutine top()
+    end subroutine top
+  end interface
+end module kernel
+submodule (kernel) mid
+  implicit none
+  type :: helper_t
+    integer :: h
+  end type helper_t
+  abstract interface
+    subroutine cb_i()
+    end subroutine cb_i
+  end interface
+  interface
+    module subroutine work(x)
+      type(helper_t) :: x
+    end subroutine work
+  end interface
+contains
+  module subroutine top()
+  end subroutine top
+end submodule mid
+submodule (kernel:mid) leaf
+  implicit none
+  type(helper_t) :: lv
+  procedure(cb_i), pointer :: lp
+  type(token_t) :: lt
+contains
+  module subroutine work(x)
+    type(helper_t) :: x
+  end subroutine work
+end submodule leaf
+"""
+
+
 def cases():
     for order in (0, 1):
         o = (lambda a, b: a + b) if order == 0 else (lambda a, b: b + a)
@@ -28,6 +96,8 @@ def cases():
     yield ("type_shadow", _mod("  subroutine p()\n    type :: t\n      integer :: b\n    end type t\n    type(t) :: v\n  end subroutine p\n",
                               spec="  type :: t\n    integer :: a\n  end type t\n"), 0)
     yield ("undeclared", _mod("  subroutine p()\n    type(nowhere) :: v\n  end subroutine p\n"), 0)
+    yield ("extension_chain_out_of_order", EXT_CHAIN, 0)
+    yield ("nested_submodule", NESTED_SUBMODULE, 0)
 
 
 def _find(lst, name):
@@ -71,6 +141,37 @@ def check(kind, proj):
         v = _find(p.variables, "v")
         if isinstance(v.proto[0], str) or v.proto[0].parent is not p:
             bad.append("type(t) in p resolves to the module-level t although p declares its own t")
+    elif kind == "extension_chain_out_of_order":
+        ty = {t.name.lower(): t for t in m.types}
+        a, b, c = ty["a"], ty["b"], ty["c"]
+        if c.extends is not b or b.extends is not a:
+            bad.append("extension chain c -> b -> a is not resolved to the type entities")
+        run_binding = next(bp for bp in a.boundprocs if bp.name.lower() == "run")
+        cb = {bp.name.lower(): bp for bp in c.boundprocs}
+        if cb.get("run") is not run_binding:
+            bad.append("type c (declared before its parent b) does not inherit the binding `run` of its grandparent a")
+        if [v.name.lower() for v in c.variables] != ["ia", "ib", "ic"]:
+            bad.append(f"components of c are {[v.name.lower() for v in c.variables]}, expected the inherited ia, ib and its own ic")
+        if "go" in cb and cb["go"].bindings != [run_binding]:
+            bad.append("generic :: go => run in c does not designate the inherited binding run")
+        user = _find(m.subroutines, "user")
+        if user.calls != [run_binding]:
+            bad.append(f"call x%run() on a type(c) variable resolves to {[getattr(x, 'name', x) for x in user.calls]} instead of the inherited binding")
+    elif kind == "nested_submodule":
+        sub = {x.name.lower(): x for x in proj.submodules}
+        mid, leaf = sub["mid"], sub["leaf"]
+        helper = _find(mid.types, "helper_t")
+        cb_i = _find(mid.absinterfaces, "cb_i")
+        lv, lp, lt = _find(leaf.variables, "lv"), _find(leaf.variables, "lp"), _find(leaf.variables, "lt")
+        if lv.proto[0] is not helper:
+            bad.append("type(helper_t) in submodule leaf does not resolve to the type declared in its parent submodule mid")
+        if lp.proto[0] is not cb_i:
+            bad.append("procedure(cb_i) in submodule leaf does not resolve to the abstract interface of its parent submodule mid")
+        if lt.proto[0] is not _find(m.types, "token_t"):
+            bad.append("type(token_t) in submodule leaf does not resolve to the ancestor module's type")
+        work = _find(leaf.modprocedures if hasattr(leaf, "modprocedures") else [], "work") or _find(leaf.modsubroutines, "work")
+        if work is None or getattr(work, "module", True) is True or work.module is False:
+            bad.append("module subroutine work in leaf is not paired with its interface declared in the parent submodule mid")
     elif kind == "undeclared":
         p = _find(m.subroutines, "p")
         v = _find(p.variables, "v")
